@@ -716,7 +716,7 @@ Proof.
   assert (incl (relation_defs (q_relation q)) (all_defs q)) as Hd2
     by (unfold all_defs; apply incl_appr, incl_refl).
   destruct (tables_ok _ _ _ _ Hd1 H3) as [Hu Ht].
-  destruct (relation_ok _ _ _ _ Hd2 H4) as [Hu' Ht'].
+  destruct (relation_ok _ _ _ _ _ Hd2 H4) as [Hu' Ht'].
   constructor; try assumption.
   - unfold used_cids. apply incl_app; assumption.
   - exact (lt_nodup_tid _ L).
